@@ -24,7 +24,7 @@ for (prop, mm), c in sorted(res.items()):
     demo_note = {"pass": "pass", "PASS": "pass (the demonstration needs -race / -run <its test> alone: confirmed by hand, see DESIGN 11.5)", "fail": "fail", "FAIL": "FAIL"}
     meta = {
         "breaks_property": prop,
-        "origin": "independent sub-agent given only the property text and a scratch worktree (round 3: cooperating edits / rare conjunctions)",
+        "origin": "independent sub-agent given only the property text and a scratch worktree (%s)" % os.environ.get("ROUND_NOTE", "round 3: cooperating edits / rare conjunctions"),
         "needs_to_manifest": notes[:1800],
         "confirmed": {"applies_to": "/repo HEAD at the time (git apply --check)", "repo_tests_with_change": c["tests"], "demo_without_change": c["clean"],
                       "demo_with_change": demo_note.get(c["mut"], c["mut"]),
